@@ -8,11 +8,14 @@ mkdir -p $D
 cp $OUT/patch.diff $D/patch.diff
 cp $OUT/notes.md $D/agent_notes.md 2>/dev/null
 DEMO=$(ls $OUT/*_test.go 2>/dev/null | head -1)
+# with several demo files prefer the one for the package named first in the notes
+for f in $OUT/*_test.go; do b=$(basename $f); if grep -qE "(internal|cmd)[A-Za-z0-9_/.-]*/$b" $OUT/notes.md; then DEMO=$f; break; fi; done
 [ -n "$DEMO" ] && cp $DEMO $D/
 cd $WT || exit 2
 git checkout -q -- . ; git clean -fdq -e _out
 # where does the demo go? first "internal/..." or "cmd/..." path ending in _test.go mentioned in notes
-DEST=$(grep -oE '(internal|cmd)[A-Za-z0-9_/.-]*_test\.go' $OUT/notes.md | head -1)
+DEST=$(grep -oE "(internal|cmd)[A-Za-z0-9_/.-]*/$(basename $DEMO)" $OUT/notes.md | head -1)
+[ -z "$DEST" ] && { PK=$(grep -m1 '^package ' $DEMO | awk '{print $2}'); DEST=$(grep -rl --include=*.go "^package $PK\$" $WT/internal $WT/cmd 2>/dev/null | grep -v _out | head -1 | xargs dirname | sed "s|$WT/||")/$(basename $DEMO); }
 [ -z "$DEST" ] && DEST=$(grep -ohE '(internal|cmd)[A-Za-z0-9_/.-]*_test\.go' $OUT/*.md $OUT/*.log 2>/dev/null | head -1)
 PKG=./$(dirname "$DEST")
 TESTS=$(grep -oE '^func (Test[A-Za-z0-9_]*)' $DEMO | sed 's/func //' | paste -sd'|')
